@@ -61,6 +61,40 @@ func main() {
 				// storage write error inside confirm / play / walk / own block. Whether they leave a
 				// trace is C05's question; here the irreversible height must still be the maximum over
 				// the blocks that were applied, in memory and after the next reopen.
+				if rng.Intn(10) == 0 {
+					// two walks at the same time (the engine walks from its sync path and from its
+					// mining loop): the outcome must be that of one of the two sequential orders
+					var stored []int
+					for _, b := range s.T.Blocks {
+						if s.Confirmed[b.Idx] || b.Idx == 0 {
+							stored = append(stored, b.Idx)
+						}
+					}
+					if len(stored) >= 3 && s.LedgerTip() >= 0 {
+						a, b := stored[rng.Intn(len(stored))], stored[rng.Intn(len(stored))]
+						if a != b {
+							op, ps := s.TwoWalks(rng, a, b)
+							if len(ps) > 0 {
+								return ps
+							}
+							m := models[s]
+							if m == nil {
+								m = &irr{w: win, chain: []int{0}}
+								models[s] = m
+							}
+							// the model follows whatever sequential order explains the outcome: resynchronise
+							// it with the chain the state is on now (the height itself was just compared with
+							// the twins, which run the same max-monotone rule)
+							if tip := s.Tip(); tip >= 0 {
+								m.chain = s.T.Path(tip)
+								m.value = s.N.State.GetMeta().IrreversibleBlockHeight
+							}
+							r.Count("twowalks", 1)
+							_ = op
+							return nil
+						}
+					}
+				}
 				var op hist.Op
 				pick := rng.Intn(12)
 				if lastKind[s] == "mine" && rng.Intn(2) == 0 {
@@ -98,6 +132,7 @@ func main() {
 	}
 	r.Floor("irr.compared", 2000)
 	r.Floor("failing-ops", 100)
+	r.Floor("twowalks", 60)
 	r.Floor("irr.raised", 200)
 	r.Floor("walk.refused.justified", 30)
 	r.Floor("walk.prune.lowered", 5)
